@@ -57,6 +57,12 @@ def seeds():
         what = what.replace("|", "\\|")[:110]
         caught = ", ".join(meta.get("caught_by", [])) or "MISSED"
         rr = res.get(s)
+        if meta.get("kind") == "benign":       # a behaviour-preserving refactoring: the check has to stay silent
+            exits = sorted({v["exit"] for v in meta.get("checks", {}).values()})
+            caught = "refactoring: silent (exit 0)" if meta.get("silent") else f"refactoring: NOT silent (exit {exits})"
+            rrs = "-" if not rr else ("no longer applies" if rr[0] == "does-not-apply" else ("silent" if "exit=0" in rr[1] else "NOT silent (" + rr[1] + ")"))
+            rows.append(f"| {s} | {', '.join(f.replace('xknx/', '') for f in files)}: `{what}` | (behaviour-preserving) | {caught} | {rrs} |")
+            continue
         rrs = "-" if not rr else ("no longer applies (the code it changes was repaired since)" if rr[0] == "does-not-apply" else ("caught" if "exit=1" in rr[1] else "NOT caught (" + rr[1] + ")"))
         rows.append(f"| {s} | {', '.join(f.replace('xknx/', '') for f in files)}: `{what}` | {meta.get('needs', '')[:60]} | {caught} | {rrs} |")
     return "\n".join(rows)
